@@ -304,8 +304,17 @@ impl Case {
     }
 }
 
+/// A quarter of the cases (chosen by their content) declare the candidates as methods of one struct, with unrelated methods
+/// between them, and call through an object: the overload set of a method name is every method of that name, wherever declared
+fn method_mode(case: &Case) -> bool {
+    (case.content_hash() >> 33) & 3 == 0
+}
+
 /// Candidates in the order of their first declaration in the rendered program (prototypes come first)
 fn declaration_order(case: &Case, perm: &[usize]) -> Vec<usize> {
+    if method_mode(case) {
+        return perm.to_vec();
+    }
     let h = case.content_hash();
     let mut order: Vec<usize> = perm.iter().copied().filter(|k| (h >> (2 * k)) & 3 == 0).collect();
     for &k in perm {
@@ -326,6 +335,36 @@ fn render(case: &Case, perm: &[usize], assert_ret: Option<usize>) -> String {
     // declaration order of one case shows the same set); the prototype may carry a default value for its last parameter that the
     // definition does not repeat. Prototype and definition are one candidate: nothing observable may change.
     let h = case.content_hash();
+    if method_mode(case) {
+        s.push_str("struct Host\n{\n    int pad;\n");
+        for (pos, &k) in perm.iter().enumerate() {
+            let params: Vec<String> = case.cands[k].iter().enumerate().map(|(i, p)| format!("{} p{}", p.text(), i)).collect();
+            s.push_str(&format!("    R{} f({}) {{ ", k, params.join(", ")));
+            for (i, p) in case.cands[k].iter().enumerate() {
+                if p.out {
+                    s.push_str(&format!("p{} = ({})0; ", i, p.ty.name()));
+                }
+            }
+            s.push_str(&format!("R{} r; r.v = {}; return r; }}\n", k, k));
+            if (h >> (40 + pos)) & 1 == 0 {
+                s.push_str(&format!("    int other{}() {{ return pad + {}; }}\n", pos, pos));
+            }
+        }
+        s.push_str("};\nvoid test() {\n");
+        for (i, a) in case.args.iter().enumerate() {
+            if let Some(d) = a.decl(i) {
+                s.push_str(&d);
+            }
+        }
+        s.push_str("    Host h;\n    h.pad = 0;\n");
+        let args: Vec<String> = case.args.iter().enumerate().map(|(i, a)| a.expr(i)).collect();
+        match assert_ret {
+            Some(k) => s.push_str(&format!("    assert_type<R{}>(h.f({}));\n", k, args.join(", "))),
+            None => s.push_str(&format!("    h.f({});\n", args.join(", "))),
+        }
+        s.push_str("}\n");
+        return s;
+    }
     for &k in perm {
         if (h >> (2 * k)) & 3 != 0 {
             continue;
@@ -1252,6 +1291,7 @@ fn run(ctx: &Ctx) -> Report {
         let perms = permutations_for(case.cands.len(), thorough, &mut prng);
         examine(&case, &perms, true, report);
         report.count("cases:generated");
+        report.count(if method_mode(&case) { "cases:generated:candidates-are-struct-methods" } else { "cases:generated:candidates-are-free-functions" });
     });
     report.merge(r);
     if thorough {
